@@ -246,10 +246,10 @@ SPEC = {
             "vectors with NaN components), the primitive stream C01.prim (the harness's comparisons and conversions against the "
             "model's bit-level IEEE ones on ~70 x 70 edge / random patterns), the name-hygiene stream (names.rs: 14 names the name map "
             "must rename — 12 words reserved in HLSL that RSSL accepts as identifiers (pass, texture, sampler, string, technique, vector, "
-            "matrix, abs, min, lerp, dot, select), a used function, a used static global — x 12 shapes (the renamed name in an inner block / "
+            "matrix, abs, min, lerp, dot, select), a used function, a used static global — x 13 shapes (the renamed name in an inner block / "
             "outer block / parameter / for-initialiser / both branches of if-else / loop body / sibling blocks / a three-level shadowing "
-            "chain, next to a source local, parameter or function literally called <name>_<k>) x 0..2 earlier functions whose own local or "
-            "parameter consumes <name>_0, <name>_1 x k = 0..2: 720 programs on 5 argument vectors; then 200 (thorough 3000) random modules "
+            "chain, next to a source local, parameter, function or static global literally called <name>_<k>, the function called / the global read and written while the renamed local is in scope) x 0..2 earlier functions whose own local or "
+            "parameter consumes <name>_0, <name>_1 x k = 0..2: 780 programs on 5 argument vectors; then 200 (thorough 3000) random modules "
             "of 2..4 functions whose parameters, block locals and for-variables are drawn from one pool {two reserved words, their _0 _1 _2 "
             "_1_0 forms, helper, helper_0, helper_1, gv, gv_0, user_0, two plain names} with shadowing and re-use in sibling blocks; the text "
             "evaluator resolves every identifier of the re-parsed output by C block scoping (scopes.rs: innermost declaration; two "
